@@ -145,7 +145,7 @@ def run(ctx, prop, fam, relevant, assumptions):
     nrand = {"c04": (48, 600), "c05": (24, 320), "c09": (48, 600)}[fam][0 if q else 1]
     scen = tc.simulate(ctx, "Daemon_mc", "Daemon_gen_%s.cfg" % fam, num=nscen, depth=150)
     bins = go_build_tests(ctx, [PKG])
-    traces = run_harness(ctx, bins[PKG], fam, 16, {"VERIF_SCEN": scen, "VERIF_RANDOM": str(nrand)})
+    traces = run_harness(ctx, bins[PKG], fam, 32 if fam == "c05" else 16, {"VERIF_SCEN": scen, "VERIF_RANDOM": str(nrand)})
     nkill = 0
     if prop == "C05":
         kt = run_kill(ctx, bins[PKG], 16 if q else 300)
